@@ -78,6 +78,19 @@ def run_C16(res, tier):
         cases.append((10, [reg_tree(data, 8000, w, ch), opt(a), opt(b)]))
         impl.append(out_region(got))
         meta.append({"length": L, "format(sw,ch)": [w, ch], "slice": [a, b]})
+    # len() is the sample count and duration is len / rate - also for sizes n where (n / rate) * rate is not n in binary64,
+    # and for slices of such regions
+    for rate in (8000, 16000, 44100, 48000, 22050, 11025, 100, 7):
+        frag = [n for n in range(1, 2200) if int(n / rate * rate) != n][:6] + [n for n in range(1, 2200) if int(n / rate * rate) != n][-3:]
+        for n in frag:
+            for (w, ch) in ((1, 1), (2, 2)):
+                reg = AudioRegion(bytes(n * w * ch), rate, w, ch)
+                sub = reg[0:n]
+                tail = reg[-n:]
+                for what_, x in (("the region", reg), ("region[0:%d]" % n, sub), ("region[-%d:]" % n, tail)):
+                    if viol is None and (len(x) != n or x.duration != n / rate or len(x.data) != n * w * ch):
+                        viol = {"what": "%s of %d samples at %d Hz (sw=%d, ch=%d): len() = %r, duration = %r, expected %d and %r" % (what_, n, rate, w, ch, len(x), x.duration, n, n / rate),
+                                "samples": n, "rate": rate, "format(sw,ch)": [w, ch]}
     n_samples_cases = len(cases)
     # ---- seconds / milliseconds views
     rates = [7, 10, 441, 16000]
@@ -321,12 +334,22 @@ def run(prop, tier):
     res = C.Result(prop, tier)
     proof = C.proof_step(["Props/%s.v" % prop])
     proof["trusted"] = [
-        "model Audio/Region.v written by hand from AudioRegion (core.py); tied by correspondence only (exhaustive small scope / seeded random), not by translation",
+        "model Audio/Region.v written by hand from AudioRegion (core.py); __getitem__ (with _check_convert_index), the seconds and milliseconds views and make_silence are translated from /repo on every run (harness/py2coq/misc.py, groups region / silence) and proved equal to the model for all bounds (TieRegion.v, TieSilence.v); the algebra (+, *, join, /, ==) is tied by correspondence (exhaustive small scope / seeded random)",
         "extraction (ExtrOcamlBasic only) + OCaml driver, cross-checked by vm_compute on a sample",
         "Flocq binary64 for t*rate; float->int conversions defined on (mantissa, exponent) in Z",
     ]
     C.import_auditok()
+    from ..py2coq import misctie
+    ties = [misctie.tie_group("region")] + ([misctie.tie_group("silence")] if prop == "C17" else [])
+    proof["tie_obligations"] = [o for t in ties for o in t["obligations"]]
+    proof["undischarged"] = [o for t in ties if not t["ok"] for o in t["obligations"]]
     with warnings.catch_warnings():
         warnings.simplefilter("ignore")
         (run_C16 if prop == "C16" else run_C17)(res, tier)
+    res.coverage["tie_translation"] = [t["detail"][:300] for t in ties]
+    broken = [t for t in ties if not t["ok"]]
+    if broken and not res.violations:
+        res.add_violation("translation tie broken: %s; the %s oracle found no failing input" % (broken[0]["detail"][:600], "Python-slice" if prop == "C16" else "byte-level"),
+                          {"no_longer_checks": "TieRegion.v / TieSilence.v (AudioRegion.__getitem__, seconds / milliseconds views, make_silence translated from /repo)",
+                           "tie_detail": [t["detail"] for t in broken]}, no_input=True)
     return res.finish(proof)
